@@ -5,6 +5,7 @@ import (
 	"encoding/hex"
 	"encoding/json"
 	"fmt"
+	"github.com/jcmturner/gokrb5/v8/types"
 	"math/rand"
 	"os"
 	"sync"
@@ -65,7 +66,9 @@ func rbytes(r *rand.Rand, n int) []byte {
 }
 
 // be32 renders a key usage number as the 4-byte big-endian tuple the specification uses.
-func be32(u uint32) []int { return []int{int(u >> 24), int(u >> 16 & 0xff), int(u >> 8 & 0xff), int(u & 0xff)} }
+func be32(u uint32) []int {
+	return []int{int(u >> 24), int(u >> 16 & 0xff), int(u >> 8 & 0xff), int(u & 0xff)}
+}
 
 func readNDJSON(path string, each func(map[string]interface{}) error) error {
 	f, err := os.Open(path)
@@ -131,4 +134,8 @@ func readNDJSONRaw(path string, each func([]byte) error) error {
 		}
 	}
 	return sc.Err()
+}
+
+func messagesPrincipal(comps ...string) types.PrincipalName {
+	return types.PrincipalName{NameType: 2, NameString: comps}
 }
